@@ -5,6 +5,7 @@ cd /verif
 for d in seeded/*/; do
   id=$(basename "$d"); P=${id%%-*}; V=${id##*-}
   [ -n "${ONLY:-}" ] && [ "$ONLY" != "$id" ] && continue
+  if grep -q '"obsolete"' "/verif/$d/meta.json" 2>/dev/null; then echo "$id obsolete (no longer breaks the property on the current tree, see meta.json)"; continue; fi
   cd /repo
   [ -n "$(git status --porcelain -- hta)" ] && { echo "repo dirty"; exit 9; }
   src="/tmp/wt/$P/seed/$V/patch.diff"; [ -f "$src" ] || src="/verif/$d/patch.diff"
